@@ -589,7 +589,7 @@ class ZoneSpecifier:
     ) -> Optional[Transition]:
         """Return Transition for the given datetime.
         """
-        self.init_for_year(dt.year)
+        self._init_for_datetime(dt)
         return self._find_transition_for_datetime(dt)
 
     def get_timezone_info_for_seconds(self, epoch_seconds: int) -> OffsetInfo:
@@ -608,7 +608,7 @@ class ZoneSpecifier:
     ) -> Optional[OffsetInfo]:
         """Return the OffsetInfo of the Transition for a given datetime.
         """
-        self.init_for_year(dt.year)
+        self._init_for_datetime(dt)
         transition = self._find_transition_for_datetime(dt)
         return transition.to_timezone_tuple() if transition else None
 
@@ -761,6 +761,17 @@ class ZoneSpecifier:
             year = ldt.year
 
         self.init_for_year(year)
+
+    def _init_for_datetime(self, dt: datetime) -> None:
+        """Initialize the Transitions for the given local datetime. Like
+        _init_for_second(), a window shorter than 14 months does not contain
+        the transition in force before Jan 1, so Jan 1 is looked up using the
+        previous year.
+        """
+        if self.viewing_months < 14 and dt.month == 1 and dt.day == 1:
+            self.init_for_year(dt.year - 1)
+        else:
+            self.init_for_year(dt.year)
 
     def _find_transition_for_seconds(
         self,
